@@ -11,6 +11,7 @@ From BV Require Import Lib.Cases Model.LaxSem Model.Restart Model.Pool
 From BV Require Import Proofs.PoolHist.
 From BV Require Import Model.PoolSys Proofs.PoolSysProofs.
 From BV Require Gen.G_pool_shape.
+From BV Require Gen.G_pool_pins.
 Import ListNotations.
 Open Scope Z_scope.
 
@@ -205,3 +206,11 @@ Example C01_witness :
   map (fun x => (ready x, value x, cb_succ x + cb_err x)) (jobs (run c01_cfg c01_tr))
   = [(true, Some (PTimeLimit (Some 5)), 1); (true, Some (PLost (-11) 1), 1)].
 Proof. vm_compute. reflexivity. Qed.
+
+(* the parent-side functions of billiard/pool.py these theorems are about are, on this run, the very
+   text the hand-written model was read against and is validated against by the correspondence
+   (digests of their ASTs, translate/kernels/poolpins.py): any edit of one of them breaks this
+   obligation and starts the deeper search for a failing history *)
+Theorem C01_modelled_code_is_the_validated_text : G_pool_pins.modelled_code_of_C01 = true.
+Proof. reflexivity. Qed.
+Print Assumptions C01_modelled_code_is_the_validated_text.
